@@ -2,6 +2,7 @@ import Rg.Model.RunSafe
 import Rg.Props.C03
 import Rg.Props.C15
 import Rg.Props.C09
+import Rg.Props.C02
 /-!
 # C07 — Run never crashes on type-checked code and reports are well-formed
 
@@ -9,7 +10,8 @@ What is proved about the model: the run-time consumers of a capture are total on
 shape (ordinary node, typed nil, empty `$*` list, unbound) — report location (`At()`), capture text,
 line filters, message interpolation for every template and every `TruncateLen`, the walk itself — and
 every delivered report lies inside the file when gogrep's match and captures do.  The predicates'
-own totality is C02's model (`evalPred`); gogrep and go/types are trusted.  Whether the *Go code*
+own totality is `pred_total` below, a corollary of C02's `pred_eq_spec` over the predicate model (`PR.evalPred`);
+gogrep and go/types are trusted.  Whether the *Go code*
 panics where the model does not is what the exhaustive product-space enumeration of the harness
 checks (every capture shape × every predicate × payload clause × TruncateLen × GoVersion × state).
 -/
@@ -86,5 +88,17 @@ theorem walk_total_balanced (C : Walk.Cfg) (T : Nat → Walk.Row) (hC : Walk.Cfg
 example : inFile 10 ⟨2, 5⟩ := by unfold inFile; decide
 example : (mkReport ⟨2, 5⟩ (some .typedNil) true).node = ⟨2, 5⟩ := by decide
 example : (mkReport ⟨2, 5⟩ (some (.present ⟨3, 4⟩)) true).suggestion = some ⟨3, 4⟩ := by decide
+
+/-- **pred_total**: no modelled Where() predicate the (repaired) loader accepts panics at any site — single
+capture, typed nil, statement or `$*xs` list of any length: its outcome is a verdict or "not applicable".
+Corollary of `C02.pred_eq_spec` (same two hypotheses: the go/types scoping contract for `IsVariadicParam`
+and no expression list for `HasMethod` / `IdenticalTo`, which have no list case). -/
+theorem pred_total (p : PR.Pred) (f : PR.Site → Option (Res Bool)) (s : PR.Site)
+    (h : PR.evalPred .repaired p = some f)
+    (hv : p = .isVariadic → C02.ScopeOKCap s.cf s.ex)
+    (hr : ∀ r o, p = .rel r → (r = .hasMethod ∨ r = .identicalTo) → s.oracle = some o → o.onElems = none)
+    (k : Panic) : f s ≠ some (.panic k) := by
+  rw [C02.pred_eq_spec p f s h hv hr]
+  cases SpecC02.specPred p s <;> simp
 
 end C07
